@@ -487,6 +487,8 @@ func statefulCreation(m *model.Model, info *types.Info, v *types.Var) string {
 			continue
 		}
 		switch {
+		case cl.Pkg() != nil && cl.Pkg().Path() == "time" && (cl.Name() == "NewTimer" || cl.Name() == "NewTicker" || cl.Name() == "AfterFunc" || cl.Name() == "After" || cl.Name() == "Tick"):
+			return "a running timer (time." + cl.Name() + ")"
 		case cl == m.Obj.NewSubscription:
 			return "a Subscription"
 		case m.Obj.SubscriberCtors[cl] != model.ModeUnknown || cl.Name() == "NewSubscriberWithConcurrencyMode":
